@@ -11,7 +11,7 @@ use verif_harness::json::J;
 use verif_harness::*;
 
 #[derive(Clone, Debug)]
-enum Cmd { Write(Vec<(usize, Vec<u8>, Option<Vec<u8>>)>), Snap, Read(usize, Vec<u8>), ReadTop(usize, Vec<u8>), Rotate(usize) }
+enum Cmd { Write(Vec<(usize, Vec<u8>, Option<Vec<u8>>)>), Snap, Read(usize, Vec<u8>), ReadTop(usize, Vec<u8>), Rotate(usize), Ingest(usize, Vec<(Vec<u8>, Option<Vec<u8>>)>), Close }
 
 #[derive(Default)]
 struct Agent { at: Option<&'static str>, gen: u64, done: bool, out: Vec<String>, panicked: bool }
@@ -32,7 +32,7 @@ fn park(id: usize, name: &'static str) {
 fn hook(name: &'static str) {
     if let Some(id) = AGENT.with(|a| a.get()) {
         match name {
-            "write.begin" | "rotate.begin" => {}
+            "write.begin" | "rotate.begin" | "ingest.begin" => {}
             "snapshot.loaded" if !IN_SNAP.with(|s| s.get()) => {}
             _ => park(id, name),
         }
@@ -77,6 +77,15 @@ fn agent_body(id: usize, prog: Vec<Cmd>, db: Database, kss: Vec<Keyspace>) {
             Cmd::Read(k, key) => match &snap { Some(s) => match s.get(&kss[*k], key) { Ok(v) => show(&v.map(|x| x.to_vec())), Err(e) => format!("err:{e:?}") }, None => "noview".into() },
             Cmd::ReadTop(k, key) => match kss[*k].get(key) { Ok(v) => show(&v.map(|x| x.to_vec())), Err(e) => format!("err:{e:?}") },
             Cmd::Rotate(k) => match kss[*k].rotate_memtable() { Ok(b) => format!("rotated={b}"), Err(e) => format!("err:{e:?}") },
+            Cmd::Ingest(k, items) => {
+                let r = (|| -> fjall::Result<()> {
+                    let mut ing = kss[*k].start_ingestion()?;
+                    for (key, v) in items { match v { Some(v) => ing.write(key.clone(), v.clone())?, None => ing.write_tombstone(key.clone())? } }
+                    ing.finish()
+                })();
+                match r { Ok(()) => "ok".to_string(), Err(e) => format!("err:{e:?}") }
+            }
+            Cmd::Close => { snap = None; "closed".into() }
         };
         ctl().m.lock().unwrap()[id].out.push(out);
     }
@@ -96,6 +105,8 @@ fn enc_cmd(c: &Cmd) -> String {
         Cmd::Read(k, key) => format!("R{}:{}", k + 1, hex(key)),
         Cmd::ReadTop(k, key) => format!("T{}:{}", k + 1, hex(key)),
         Cmd::Rotate(_) => "O".into(),
+        Cmd::Ingest(k, items) => format!("I{}", items.iter().map(|(key, v)| format!("{}:{}:{}", k + 1, hex(key), v.as_ref().map(|v| hex(v)).unwrap_or("~".into()))).collect::<Vec<_>>().join(";")),
+        Cmd::Close => "X".into(),
     }
 }
 fn field<'a>(rep: &'a str, name: &str) -> &'a str {
@@ -124,6 +135,12 @@ fn gen_progs(r: &mut Rng, thorough: bool) -> Vec<Vec<Cmd>> {
                     p.push(Cmd::Write(items));
                 }
                 6..=7 => p.push(Cmd::ReadTop(r.below(2) as usize, r.pick(&keys).clone())),
+                8 if r.chance(1, 2) => {
+                    // bulk ingestion: keys in ascending order, each once
+                    let mut items: std::collections::BTreeMap<Vec<u8>, Option<Vec<u8>>> = Default::default();
+                    for _ in 0..r.range(1, 2) { ctr += 1; items.insert(r.pick(&keys).clone(), Some(vec![ctr])); }
+                    p.push(Cmd::Ingest(r.below(2) as usize, items.into_iter().collect()));
+                }
                 _ => p.push(Cmd::Rotate(r.below(2) as usize)),
             }
         }
@@ -134,8 +151,11 @@ fn gen_progs(r: &mut Rng, thorough: bool) -> Vec<Vec<Cmd>> {
         for _ in 0..r.range(1, 2) {
             p.push(Cmd::Snap);
             for _ in 0..r.range(2, 4) { p.push(Cmd::Read(r.below(2) as usize, r.pick(&keys).clone())); }
+            if r.chance(1, 2) { p.push(Cmd::Close); }
         }
         if r.chance(1, 2) { p.push(Cmd::ReadTop(r.below(2) as usize, r.pick(&keys).clone())); }
+        // a snapshot is dropped explicitly before the thread ends (the model has no implicit drop)
+        if !matches!(p.last(), Some(Cmd::Close)) && p.iter().any(|c| matches!(c, Cmd::Snap)) { let at = p.iter().rposition(|c| matches!(c, Cmd::Read(..) | Cmd::Snap)).unwrap() + 1; p.insert(at, Cmd::Close); }
         progs.push(p);
     }
     progs
@@ -163,7 +183,9 @@ fn run_case(seed: u64, lean: &mut Lean, hist: &mut BTreeMap<String, u64>, sample
     // model
     let mut progs_enc: Vec<String> = progs.iter().map(|p| if p.is_empty() { "-".into() } else { p.iter().map(enc_cmd).collect::<Vec<_>>().join(",") }).collect();
     progs_enc.push(vec!["G"; 64].join(","));
-    let rep = lean.ask(&format!("conc.init {} {} {} {}", db.seqno(), db.visible_seqno(), if nofloor { "nofloor" } else { "floor" }, progs_enc.join("|")));
+    progs_enc.push(vec!["C"; 64].join(","));
+    let gcmirror = n + 1; // model-only thread that mirrors tracker GC runs started by the controller
+    let rep = lean.ask(&format!("conc.init {} {} {} {} {}", db.seqno(), db.visible_seqno(), fjall::verif::tracker_watermark(&db), if nofloor { "nofloor" } else { "floor" }, progs_enc.join("|")));
     let nm = no_model();
     if !nm && rep != "ok" { fail!("harness", "conc.init: {rep}"); return (fails, false, 0); }
 
@@ -193,15 +215,23 @@ fn run_case(seed: u64, lean: &mut Lean, hist: &mut BTreeMap<String, u64>, sample
     let mut partial_read = false;
     let mut steps = 0;
     let mut aborted = false;
+    let mut pending_gc: Option<(std::thread::JoinHandle<()>, Arc<std::sync::atomic::AtomicBool>)> = None;
 
     macro_rules! compare { ($what:expr, $rep:expr) => {{
         let (c, v) = (db.seqno(), db.visible_seqno());
         let f = fjall::verif::tracker_write_floor(&db).map(|x| x.to_string()).unwrap_or("none".into());
         let (mc, mv, mf) = (field(&$rep, "c"), field(&$rep, "v"), field(&$rep, "f"));
-        if !nm && (mc != c.to_string() || mv != v.to_string() || (!nofloor && mf != f)) {
-            fail!("model-vs-impl", "after {}: real (counter={c}, visible={v}, floor={f}) model (counter={mc}, visible={mv}, floor={mf})", $what);
+        let w = fjall::verif::tracker_watermark(&db);
+        let mw = field(&$rep, "wm");
+        if !nm && (mc != c.to_string() || mv != v.to_string() || (!nofloor && (mf != f || mw != w.to_string()))) {
+            fail!("model-vs-impl", "after {}: real (counter={c}, visible={v}, floor={f}, watermark={w}) model (counter={mc}, visible={mv}, floor={mf}, watermark={mw})", $what);
             aborted = true;
         }
+        // implementation-only oracle: the GC watermark never passes a live snapshot
+        for (vt, vi) in views.iter().enumerate() { if let Some(i) = vi { if w > *i {
+            fail!("impl-vs-oracle", "the GC watermark is {w} but thread {vt} holds a live snapshot with instant {i}");
+            aborted = true;
+        } } }
     }} }
 
     'outer: while !aborted {
@@ -223,11 +253,39 @@ fn run_case(seed: u64, lean: &mut Lean, hist: &mut BTreeMap<String, u64>, sample
             if k > 0 { compare!("a version registration", rep); }
             continue;
         }
+        // a tracker GC run by the controller (or, while an `open` is in progress, a probe that it has to wait)
+        if pending_gc.is_none() && r.chance(1, 10) {
+            if loaders == 0 {
+                fjall::verif::tracker_gc(&db);
+                let rep = lean.ask(&format!("conc.step {gcmirror}"));
+                trace.push("gc".into());
+                *hist.entry("gc".into()).or_insert(0) += 1;
+                compare!("a tracker GC", rep);
+            } else {
+                let fin = Arc::new(std::sync::atomic::AtomicBool::new(false));
+                let (f2, db2) = (fin.clone(), db.clone());
+                let h = std::thread::spawn(move || { fjall::verif::tracker_gc(&db2); f2.store(true, std::sync::atomic::Ordering::Release); });
+                std::thread::sleep(Duration::from_millis(if thorough { 40 } else { 15 }));
+                let rep = lean.ask(&format!("conc.step {gcmirror}"));
+                if !nm && !rep.starts_with("blocked") { fail!("model-vs-impl", "model lets the tracker GC run while an open() is in progress: {rep}"); break; }
+                if fin.load(std::sync::atomic::Ordering::Acquire) {
+                    fail!("impl-vs-oracle", "SnapshotTracker::gc completed while an open() was between reading the counter and registering its instant (the GC lock does not cover it)");
+                    let _ = h.join();
+                    break;
+                }
+                pending_gc = Some((h, fin));
+                trace.push("gc: has to wait for the open in progress".into());
+                *hist.entry("gc-block-probe".into()).or_insert(0) += 1;
+            }
+            continue;
+        }
         let t = *r.pick(&live);
         let cmd = progs[t].get(pc[t]).cloned();
         let point = at[t];
+        // while a GC waits for the GC lock, anything that needs that lock would queue up behind it
+        if pending_gc.is_some() && point != "snapshot.loaded" && (matches!((point, &cmd), ("cmd.begin", Some(Cmd::Snap)) | ("cmd.begin", Some(Cmd::Close)) | ("rotate.locked", _) | ("ingest.locked", _))) { continue; }
         // does this step need the journal lock?
-        let acquire = point == "cmd.begin" && matches!(cmd, Some(Cmd::Write(_)) | Some(Cmd::Rotate(_)));
+        let acquire = point == "cmd.begin" && matches!(cmd, Some(Cmd::Write(_)) | Some(Cmd::Rotate(_)) | Some(Cmd::Ingest(..)));
         if acquire && holder.is_some() {
             // block probe: the agent must not get past the lock
             if pending.is_none() && r.chance(1, 2) {
@@ -249,10 +307,37 @@ fn run_case(seed: u64, lean: &mut Lean, hist: &mut BTreeMap<String, u64>, sample
             continue;
         }
         // the second half of a rotation runs the tracker GC, which needs the GC lock that a parked `open` holds
-        if point == "rotate.locked" && loaders > 0 { continue; }
+        if (point == "rotate.locked" || point == "ingest.locked") && loaders > 0 { continue; }
+        if point == "ingest.locked" {
+            // the whole rest of `finish` runs without a pause point: flush of the memtable (may register a
+            // version), seqno draw + registration of the ingested tables, tracker GC, unlock
+            let c0 = db.seqno();
+            release(t);
+            let Some(now) = wait_parked(t, long) else { fail!("impl-vs-oracle", "thread {t} did not finish its ingestion within 10 s"); aborted = true; break; };
+            let k = db.seqno() - c0;
+            if k == 0 { fail!("impl-vs-oracle", "an ingestion drew no seqno between taking the journal lock and returning: its tables were registered outside the journal critical section, so a write that had already drawn its seqno can be overtaken (memtable entry older than the ingested table entry: get != scan)"); break; }
+            for _ in 0..(k - 1) { lean.ask(&format!("conc.step {mirror}")); lean.ask(&format!("conc.step {mirror}")); }
+            let mut rep = String::new();
+            for _ in 0..3 { rep = lean.ask(&format!("conc.step {t}")); if !nm && !rep.starts_with("ok") { fail!("model-vs-impl", "model refuses a step of the ingestion of thread {t}: {rep}"); aborted = true; } }
+            if let Some(Cmd::Ingest(kk, items)) = &cmd { writes.push((db.seqno() - 1, items.iter().map(|(key, v)| (*kk, key.clone(), v.clone())).collect())); }
+            trace.push(format!("t{t}: ingest.locked -> {now} ({k} seqnos)"));
+            *hist.entry("ingest".into()).or_insert(0) += 1;
+            holder = None; pc[t] += 1; at[t] = now;
+            if aborted { break; }
+            compare!(format!("the ingestion of thread {t}"), rep);
+            if holder.is_none() { if let Some(p) = pending.take() {
+                let Some(px) = wait_parked(p, long) else { fail!("impl-vs-oracle", "thread {p} did not get the journal lock after it was released"); break 'outer; };
+                let rep2 = lean.ask(&format!("conc.step {p}"));
+                if !nm && !rep2.starts_with("ok") { fail!("model-vs-impl", "model refuses the lock to thread {p}: {rep2}"); break; }
+                if let Cmd::Write(items) = &progs[p][pc[p]] { items_left[p] = items.len(); }
+                at[p] = px; holder = Some(p);
+                trace.push(format!("t{p}: got the lock -> {px}"));
+            } }
+            continue;
+        }
         if holder.map(|h| h != t && (at[h] == "write.drawn" || at[h] == "write.item")).unwrap_or(false) { inside_window = true; }
         // model step
-        let rep = lean.ask(&format!("conc.step {t}"));
+        let mut rep = lean.ask(&format!("conc.step {t}"));
         if !nm && !rep.starts_with("ok") { fail!("model-vs-impl", "model refuses the step of thread {t} at {point} ({cmd:?}): {rep}"); break; }
         // real step
         release(t);
@@ -263,6 +348,8 @@ fn run_case(seed: u64, lean: &mut Lean, hist: &mut BTreeMap<String, u64>, sample
         match (point, &cmd) {
             ("cmd.begin", Some(Cmd::Write(items))) => { expect = "write.locked"; items_left[t] = items.len(); }
             ("cmd.begin", Some(Cmd::Rotate(_))) => { expect = "rotate.locked"; }
+            ("cmd.begin", Some(Cmd::Ingest(..))) => { expect = "ingest.locked"; }
+            ("cmd.begin", Some(Cmd::Close)) => { views[t] = None; }
             ("cmd.begin", Some(Cmd::Snap)) => { expect = "snapshot.loaded"; if holder.map(|h| at[h] == "write.drawn" || at[h] == "write.item").unwrap_or(false) { *hist.entry("open-inside-apply-window".into()).or_insert(0) += 1; } }
             ("cmd.begin", Some(Cmd::Read(k, key))) => {
                 let out = ctl().m.lock().unwrap()[t].out.last().cloned().unwrap_or_default();
@@ -282,7 +369,14 @@ fn run_case(seed: u64, lean: &mut Lean, hist: &mut BTreeMap<String, u64>, sample
             ("write.floored", _) => { expect = "write.drawn"; }
             ("write.drawn", _) | ("write.item", _) => { if items_left[t] > 0 { expect = "write.item"; } else { expect = "write.published"; } }
             ("write.published", _) => { expect = "write.unlocked"; }
-            ("rotate.locked", _) => { *hist.entry("rotate".into()).or_insert(0) += 1; }
+            ("rotate.locked", _) => {
+                *hist.entry("rotate".into()).or_insert(0) += 1;
+                // the model runs the tracker GC after every rotation; the real code only if a memtable was sealed
+                let out = ctl().m.lock().unwrap()[t].out.last().cloned().unwrap_or_default();
+                if out != "rotated=true" { fjall::verif::tracker_gc(&db); }
+                rep = lean.ask(&format!("conc.step {t}"));
+                if !nm && !rep.starts_with("ok") { fail!("model-vs-impl", "model refuses the GC after the rotation of thread {t}: {rep}"); aborted = true; }
+            }
             ("snapshot.loaded", _) => {
                 let out = ctl().m.lock().unwrap()[t].out.last().cloned().unwrap_or_default();
                 let real_view = out.strip_prefix("view=").unwrap_or("?").to_string();
@@ -296,7 +390,7 @@ fn run_case(seed: u64, lean: &mut Lean, hist: &mut BTreeMap<String, u64>, sample
         if point == "snapshot.loaded" { loaders -= 1; }
         if point == "rotate.locked" && holder == Some(t) { holder = None; }
         match now {
-            "write.locked" | "rotate.locked" => { holder = Some(t); }
+            "write.locked" | "rotate.locked" | "ingest.locked" => { holder = Some(t); }
             "write.drawn" => { if let Some(Cmd::Write(items)) = &cmd { writes.push((db.seqno() - 1, items.clone())); } }
             "write.item" => { if items_left[t] > 0 { items_left[t] -= 1; } }
             "write.unlocked" => { if holder == Some(t) { holder = None; } }
@@ -317,6 +411,18 @@ fn run_case(seed: u64, lean: &mut Lean, hist: &mut BTreeMap<String, u64>, sample
         }
         at[t] = now;
         if aborted { break; }
+        // a GC that had to wait for an open() in progress runs as soon as the last one is through
+        if loaders == 0 {
+            if let Some((h, fin)) = pending_gc.take() {
+                let t0 = Instant::now();
+                while !fin.load(std::sync::atomic::Ordering::Acquire) && t0.elapsed() < long { std::thread::sleep(Duration::from_millis(1)); }
+                if !fin.load(std::sync::atomic::Ordering::Acquire) { fail!("impl-vs-oracle", "a tracker GC that waited for an open() never got the GC lock"); break; }
+                let _ = h.join();
+                rep = lean.ask(&format!("conc.step {gcmirror}"));
+                if !nm && !rep.starts_with("ok") { fail!("model-vs-impl", "model refuses the GC after the open finished: {rep}"); break; }
+                trace.push("gc: ran after the open".into());
+            }
+        }
         compare!(format!("thread {t} {point} -> {now}"), rep);
         // a pending agent gets the lock as soon as it is free
         if holder.is_none() {
@@ -324,7 +430,7 @@ fn run_case(seed: u64, lean: &mut Lean, hist: &mut BTreeMap<String, u64>, sample
                 let Some(px) = wait_parked(p, long) else { fail!("impl-vs-oracle", "thread {p} did not get the journal lock after it was released"); break 'outer; };
                 let rep2 = lean.ask(&format!("conc.step {p}"));
                 if !nm && !rep2.starts_with("ok") { fail!("model-vs-impl", "model refuses the lock to thread {p}: {rep2}"); break; }
-                match &progs[p][pc[p]] { Cmd::Write(items) => { items_left[p] = items.len(); if !nm && px != "write.locked" { fail!("model-vs-impl", "thread {p} woke up at {px}"); break; } }, _ => { if !nm && px != "rotate.locked" { fail!("model-vs-impl", "thread {p} woke up at {px}"); break; } } }
+                match &progs[p][pc[p]] { Cmd::Write(items) => { items_left[p] = items.len(); if !nm && px != "write.locked" { fail!("model-vs-impl", "thread {p} woke up at {px}"); break; } }, Cmd::Ingest(..) => { if !nm && px != "ingest.locked" { fail!("model-vs-impl", "thread {p} woke up at {px}"); break; } }, _ => { if !nm && px != "rotate.locked" { fail!("model-vs-impl", "thread {p} woke up at {px}"); break; } } }
                 at[p] = px; holder = Some(p);
                 trace.push(format!("t{p}: got the lock -> {px}"));
             }
@@ -342,6 +448,7 @@ fn run_case(seed: u64, lean: &mut Lean, hist: &mut BTreeMap<String, u64>, sample
         if all_done { break; }
         std::thread::sleep(Duration::from_millis(1));
     }
+    if let Some((h, _)) = pending_gc.take() { let _ = h.join(); }
     let mut joined = true;
     for h in handles { if h.join().is_err() { joined = false; } }
     if !joined || ctl().m.lock().unwrap().iter().any(|a| a.panicked) { fail!("impl-vs-oracle", "an agent thread panicked"); }
